@@ -1489,7 +1489,7 @@ class Explorer:
 
     def for_loop(self, n: ast.For, st: St):
         itertxt = ast.unparse(n.iter)
-        self.emit(st, 'foriter', n, iter=itertxt, node=n)
+        self.emit(st, 'foriter', n, iter=itertxt, node=n, iter_val=self.pure_value(n.iter, st) if not isinstance(n.iter, ast.Call) else None)
         # iteration over a literal range(k) with constant k is unrolled exactly when small
         counter = {'i': 0}
 
